@@ -511,3 +511,15 @@ Definition null_chan_panics (nodes : list tnode) : bool :=
   existsb is_nil (chans_seq nodes) && negb (match chans_seq nodes with [None] => true | _ => false end).
 
 Definition ne_keys (l : list nentry) : list bytes := map (fun e => tcp_addr (ne_prod e)) l.
+
+(* /api/counter, specification side: a row's key as the code builds it (topic:channel:node) *)
+Definition row : Type := bytes * bytes * bytes * Z.
+Definition row_key (r : row) : bytes := let '(t, c, n, _) := r in t ++ colon ++ c ++ colon ++ n.
+Definition row_val (r : row) : Z := let '(_, _, _, v) := r in v.
+Fixpoint rows_find (k : bytes) (acc : list row) : option Z :=
+  match acc with
+  | [] => None
+  | r :: rest => if bytes_eqb (row_key r) k then Some (row_val r) else rows_find k rest
+  end.
+Definition counter_fold (rows : list row) : list row := fold_left (fun acc r => counter_addrow r acc) rows [].
+Definition entry_key3 (e : centry) : bytes := ekey [] e ++ colon ++ p_addr (fst (fst e)).
